@@ -379,6 +379,15 @@ func (rw *rewriter) mapHooks(s ast.Stmt) []ast.Stmt {
 		if s.Tag != nil {
 			parts = append(parts, s.Tag)
 		}
+	case *ast.RangeStmt:
+		if t := rw.info.TypeOf(s.X); t != nil && *mapsFlag && simpleExpr(s.X) {
+			if _, ok := t.Underlying().(*types.Map); ok {
+				st.mapAccesses++
+				return []ast.Stmt{&ast.ExprStmt{X: &ast.CallExpr{Fun: sel("zzsim", "M"),
+					Args: []ast.Expr{s.X, ast.NewIdent("false"), strLit(rw.site(s.Pos()))}}}}
+			}
+		}
+		return nil
 	default:
 		return nil
 	}
@@ -426,6 +435,15 @@ func (rw *rewriter) mapHooks(s ast.Stmt) []ast.Stmt {
 		})
 	}
 	if !quiet {
+		if os.Getenv("SIMREWRITE_MAPSKIP") != "" {
+			for _, ix := range accesses {
+				if t := rw.info.TypeOf(ix.X); t != nil {
+					if _, ok := t.Underlying().(*types.Map); ok {
+						fmt.Fprintf(os.Stderr, "mapskip %s\n", rw.fset.Position(ix.Pos()))
+					}
+				}
+			}
+		}
 		return nil
 	}
 	isMap := func(e ast.Expr) bool {
@@ -773,6 +791,13 @@ func (rw *rewriter) rangeStmt(s *ast.RangeStmt, labelled bool) ast.Stmt {
 	m, ok := tv.Type.Underlying().(*types.Map)
 	if !ok {
 		return s
+	}
+	if *mapsFlag && simpleExpr(s.X) {
+		// every turn of the loop reads the map
+		st.mapAccesses++
+		hook := &ast.ExprStmt{X: &ast.CallExpr{Fun: sel("zzsim", "M"),
+			Args: []ast.Expr{s.X, ast.NewIdent("false"), strLit(rw.site(s.Pos()))}}}
+		s.Body.List = append([]ast.Stmt{hook}, s.Body.List...)
 	}
 	keyName := ""
 	switch k := m.Key().(type) {
